@@ -103,6 +103,31 @@ def run(chk):
     lcases = [("vless", c[1]) for c in sub]
     li, lm = chk.run_both(lcases)
     chk.compare("slice-less", lcases, li, lm, nontrivial=lambda c, r: r == "T")
+    # the order as its consumers see it: VersionRelation.SatisfiedBy over the same pairs (operators << = >>), on relations that
+    # came out of the parser and were then given their operator and number by the caller (the exported fields are what
+    # counts) - the answers follow the sign of the comparison
+    sc, sw = [], []
+    for c, sgn in list(zip(cases, impl))[::13]:
+        ea, a, ra, eb, b, rb = c[1]
+        if ea != 0 or sgn not in ("-1", "0", "1") or b" " in a + ra or not a or not a[:1].isdigit():
+            continue
+        num = a + (b"-" + ra if ra or b"-" in a else b"")
+        if b":" in a:
+            num = b"0:" + num
+        for o, pred in ((b"<<", lambda q: q > 0), (b"=", lambda q: q == 0), (b">>", lambda q: q < 0)):
+            sc.append(("vsatparsed", [o, num, eb, b, rb])); sw.append(" ".join(["T" if pred(int(sgn)) else "F"] * 4))
+    si = chk.run_impl(sc)
+    ref = chk.run_impl([("vsat", c[1]) for c in sc])
+    chk.record("satisfied-by-on-parsed-relations", sc, si, lambda c, r: "T" in r)
+    for c, i, w, r in zip(sc, si, sw, ref):
+        # the number must be a version the parser accepts; where SatisfiedBy on a literal relation says F for all three operators
+        # it is not, and nothing is claimed
+        if i != w and i != " ".join([r] * 4):
+            chk.violate({"kind": "property", "case": __import__("lib").show_case(c), "impl": i, "expected": w, "literal_relation": r,
+                         "explanation": "SatisfiedBy on a relation that came out of the parser and was then given another operator and number does not follow the order of the two versions"})
+        elif i != " ".join([r] * 4):
+            chk.violate({"kind": "property", "case": __import__("lib").show_case(c), "impl": i, "literal_relation": r,
+                         "explanation": "SatisfiedBy answers differently for a parsed-then-edited relation (or a copy of it) than for a literal relation with the same operator and number"})
     # property instances named in the statement
     named = [("vcmp", [0, b"1.0~rc1", b"", 0, b"1.0", b""]), ("vcmp", [0, b"1.0", b"", 0, b"1.0+b1", b""]),
              ("vcmp", [0, b"1.0", b"", 0, b"1.0", b"0"]), ("vcmp", [3, b"1.0", b"", 3, b"1.0", b"0"])]
